@@ -31,5 +31,28 @@ fn rac_remove_indices() {
             }
         }
     }
-    println!("RAC-OK remove_indices cases={} nontrivial={} bound=len<={}", cases, nontrivial, MAX_LEN);
+    // longer vectors (an implementation may switch strategy with the number of removals): lengths 33..=130, for each
+    // 40 pseudo-random index sets of every density, plus "all", "all but one" and "every other"
+    let mut x: u64 = 0x9e3779b97f4a7c15;
+    for len in (33..=130usize).step_by(7).chain([64usize, 65, 100]) {
+        let mut sets: Vec<Vec<usize>> = vec![(0..len).collect(), (1..len).collect(), (0..len - 1).collect(), (0..len).step_by(2).collect(), (1..len).step_by(2).collect()];
+        for round in 0..40u64 {
+            let density = round % 8 + 1;
+            let mut idx = vec![];
+            for i in 0..len { x ^= x << 13; x ^= x >> 7; x ^= x << 17; if x % 9 < density { idx.push(i); } }
+            sets.push(idx);
+        }
+        for idx in sets {
+            let mut v: Vec<usize> = (0..len).collect();
+            v.remove_indices(idx.iter().copied().collect());
+            cases += 1;
+            if idx.len() > 32 { nontrivial += 1; }
+            let want = expected(len, &idx);
+            if v != want {
+                println!("RAC-CEX remove_indices {{\"len\": {}, \"indices\": {:?}, \"got\": {:?}, \"want\": {:?}}}", len, idx, v, want);
+                panic!("remove_indices contract violated");
+            }
+        }
+    }
+    println!("RAC-OK remove_indices cases={} nontrivial={} bound=len<={}-exhaustive+len-33..130-sampled", cases, nontrivial, MAX_LEN);
 }
